@@ -948,6 +948,13 @@ class Scalar(Qube):
             new_values[self._mask_] = min_possible
             argmax = np.argmax(new_values, axis=axis)
 
+            # If the maximum equals the fill value, a masked element could have
+            # won the tie; the first unmasked element is the answer
+            at_fill = (np.max(new_values, axis=axis) == min_possible)
+            if np.any(at_fill):
+                argmax = np.where(at_fill, np.argmin(self._mask_, axis=axis),
+                                           argmax)
+
             # Deal with completely masked items. Here, use the argmax of the
             # unmasked values.
             mask = np.all(self._mask_, axis=axis)
@@ -1020,6 +1027,13 @@ class Scalar(Qube):
             new_values = self._values_.copy()
             new_values[self._mask_] = max_possible
             argmin = np.argmin(new_values, axis=axis)
+
+            # If the minimum equals the fill value, a masked element could have
+            # won the tie; the first unmasked element is the answer
+            at_fill = (np.min(new_values, axis=axis) == max_possible)
+            if np.any(at_fill):
+                argmin = np.where(at_fill, np.argmin(self._mask_, axis=axis),
+                                           argmin)
 
             # Deal with completely masked items. Here, use the argmin of the
             # unmasked values.
